@@ -116,6 +116,7 @@ def reference_oracle(S, dA, dB, dR):
     namesA = {}
     for pm, t, n, cont in top_defs(dA, S):
         namesA.setdefault(t, set()).add(n)
+    twin_targets = {}
     stats = {'refs': 0, 'checked': 0, 'holder_absent': 0, 'renamed_targets': 0, 'shared_owner': 0, 'united_owner_other_lists': 0}
     for site, path, target, mi, index, holder, ptype in R.references_in_dump(dB, S, detail=True):
         if mi != 0:
@@ -163,6 +164,9 @@ def reference_oracle(S, dA, dB, dR):
             cls = ('shared-twin-with-renamed-target:%s->%s' % (owner_ns, ns)) if owner_shared else 'site:' + site
             out.append((cls, '%s at %s: B named %r, the representative of that element is %r, the result names %s'
                         % (site, pm, target, expected, got[:4])))
+            if owner_shared:
+                twin_targets[expected] = cls
+    stats['_twin_targets'] = twin_targets
     return out, stats
 
 
@@ -235,6 +239,7 @@ def check(tier, seed):
             failures.append((j, 'merge', 'merge_modules %s' % sx.pretty(m[:2])))
             continue
         bad, st = reference_oracle(S, la[1], lb[1], m[1])
+        twin_targets = st.pop('_twin_targets', {})
         for kk, n in st.items():
             stats_all[kk] = stats_all.get(kk, 0) + n
         xa = R.run_cases('CHECK', [R.check_case(ta), R.check_case(tb)], binary=impl)
@@ -242,7 +247,17 @@ def check(tier, seed):
         after = set(R.xref_errors(m[2]))
         if not before and after:
             new_dangling += 1
-            bad.append(('dangling', 'check() after the merge of two consistent files: %s' % sorted(after)[:3]))
+            # a THIS. reference inside an element that merge renamed to X.MERGE is left without its containing structure
+            # when the structures of B that used X were shared with identical twins of A: a consequence of that class
+            rest = []
+            for e in sorted(after):
+                cls = twin_targets.get(e[1]) if (len(e) >= 4 and str(e[3]).startswith('THIS.')) else None
+                if cls is not None:
+                    bad.append((cls, 'check() after the merge: %r lost its containing structure (its users in B were shared with A\'s twins): %s' % (e[1], (e,))))
+                else:
+                    rest.append(e)
+            if rest:
+                bad.append(('dangling', 'check() after the merge of two consistent files: %s' % rest[:3]))
         for cls, why in bad:
             failures.append((j, cls, why))
 
